@@ -133,6 +133,54 @@ func TestC10Stress(t *testing.T) {
 		rec.Note("open finding %s: handle updates and deletes are serialised by the harness; every prevented overlap is counted in excluded_known", classD6)
 	}
 
+	// deterministic probe: conditional delete vs two sequential handle updates
+	finding20, d20open := open[classCondDelete]
+	{
+		var ph *History
+		rec.Current(map[string]string{"probe": classCondDelete})
+		if stuck, deadlock := watched("ctreeprop.probeCondDelete", *c10Stall, *c10Confirm, func() { ph = probeCondDelete() }); stuck != "" {
+			if deadlock {
+				rec.AddViolation(&History{Ops: []HOp{}, Note: "probe: " + classCondDelete}, "probe", "deadlock", "the conditional-delete probe never returned: %s", stuck)
+				t.Fail()
+				completed = true
+			} else {
+				rec.Note("probe inconclusive: %s", stuck)
+			}
+			return // its goroutines cannot be reclaimed
+		}
+		pv := judge(ph, 20*time.Second, 20*time.Second)
+		rec.Label("probe-conditional-delete-vs-handle-updates")
+		switch {
+		case pv.class != "" && d20open:
+			rec.KnownFinding(fmt.Sprintf("KNOWN-FINDING: property=C10 %s (%s: the forced schedule still yields a history no sequential order explains; handle updates and conditional deletes are kept apart in the workload)", finding20.What, finding20.ID))
+		case pv.class != "":
+			ph.Note += "; deterministic: a replay runs the probe again"
+			cls := pv.class
+			if cls == "not-linearizable" {
+				cls = classCondDelete
+			}
+			rec.AddViolation(ph, "probe", cls, "DeleteConditional is not atomic with respect to Leaf.Update through retained handles: %s", pv.msg)
+			violations++
+			t.Fail()
+		case d20open:
+			rec.Note("open finding %s (%s) is listed but the probe's history is linearizable now", finding20.ID, classCondDelete)
+		}
+		if d20open {
+			rec.Note("open finding %s: handle updates and conditional deletes are serialised by the harness; every prevented overlap is counted in excluded_known", classCondDelete)
+		}
+	}
+	serialise := 0
+	switch {
+	case d6open:
+		serialise = 2
+	case d20open:
+		serialise = 1
+	}
+	exclClass := classD6
+	if !d6open {
+		exclClass = classCondDelete
+	}
+
 	stressTop = []string{"a", "b", "c", "d", "e"}[:max(1, min(5, *c10Top))]
 	rng := rand.New(rand.NewSource(*vstat.Seed))
 	var worst, total time.Duration
@@ -140,17 +188,18 @@ func TestC10Stress(t *testing.T) {
 	for i := 0; i < n && violations < 3; i++ {
 		w := genWorkload(rng, i, *c10OpBudget)
 		w.Seed = *vstat.Seed
-		w.SerialiseUpdateDelete = d6open
+		w.SerialiseUpdateDelete = serialise
 		rec.Current(w)
 		run := &stressRun{w: w}
 		h, stuck, deadlock := run.run(*c10Stall, *c10Confirm)
 		for k := int64(0); k < run.avoided.Load(); k++ {
-			rec.Excluded(classD6)
+			rec.Excluded(exclClass)
 		}
 		if stuck != "" {
 			if deadlock {
 				rec.AddViolation(w, "workload", "deadlock", "%s", stuck)
 				violations++
+				completed = true
 				t.Fail()
 			} else {
 				rec.Note("history %d inconclusive: %s", i, stuck)
@@ -280,6 +329,23 @@ func replayC10(rf *vstat.ReplayFile) string {
 					return rep.class + ": race detector: " + rep.frames[0] + " / " + rep.frames[1]
 				}
 			}
+		}
+		return ""
+	case probe.Ops != nil && rf.Kind == "probe":
+		fmt.Println("NOTE: deterministic probe: the forced schedule is executed again and its history judged")
+		var ph *History
+		if stuck, deadlock := watched("ctreeprop.probeCondDelete", *c10Stall, *c10Confirm, func() { ph = probeCondDelete() }); stuck != "" {
+			if deadlock {
+				return "deadlock: " + stuck
+			}
+			fmt.Println("NOTE: inconclusive:", stuck)
+			return ""
+		}
+		for i := range ph.Ops {
+			fmt.Println("  ", ph.Ops[i].String())
+		}
+		if v := judge(ph, 20*time.Second, 20*time.Second); v.class != "" {
+			return classCondDelete + ": " + v.msg
 		}
 		return ""
 	case probe.Ops != nil:
